@@ -136,6 +136,8 @@ type HistSpec struct {
 	SweepsMid int        `json:"sweeps_mid"` // up to this many wake-ups before an arrival: 1 = the protocol's cadence (a client wakes up once per exchange and every exchange with a backlogged server brings at least one packet); 2..4 = a STALLED sender
 	Sched     [][2]int   `json:"sched"`      // explicit arrival schedule [send, fragment] ([-1,0] = wake-up); overrides Order/SweepsMid
 	NoModel   bool       `json:"no_model"`   // too large for a model case: oracle only
+	Hop       [][3]int   `json:"hop"`        // [send, fragment, bits]: low flag bits a hop ORs onto that fragment before it arrives (FlagChannel, FlagChannelEnd, FlagProxy)
+	Pack      [][2]int   `json:"pack"`       // [start, count]: the arrivals at schedule positions start..start+count-1 (fragments) come in ONE Multi container built by the real writeUnpack
 	Wakes     []WakeSpec `json:"wakes"`      // non-empty: the receiver is a client whose real listen loop is run through these passes (overrides Sched/Order)
 }
 
@@ -457,31 +459,128 @@ func runHistory(h HistSpec) {
 		delivered []delivery
 		anomalies []string
 	)
-	for _, it := range sched {
+	hopBits := func(sI, k int) int {
+		x := 0
+		for _, hb := range h.Hop {
+			if hb[0] == sI && hb[1] == k {
+				x |= hb[2]
+			}
+		}
+		return x
+	}
+	packAt := map[int]int{}
+	for _, pk := range h.Pack {
+		packAt[pk[0]] = pk[1]
+	}
+	var schedTerms []string
+	for si := 0; si < len(sched); si++ {
+		it := sched[si]
 		if it.s < 0 {
 			rcv.Sweep()
 			outs = append(outs, "OoNone")
 			outsDesc = append(outsDesc, "sweep")
+			schedTerms = append(schedTerms, "ISweep")
 			continue
 		}
 		var (
-			err error
-			pan bool
+			err   error
+			pan   bool
+			inner = []item{it}
+			arr   *com.Packet
 		)
+		if cnt := packAt[si]; cnt > 1 {
+			inner = append([]item(nil), sched[si:si+cnt]...)
+			var ps []*com.Packet
+			var tt []string
+			for _, x := range inner {
+				if x.s < 0 {
+					panic("pack over a wake-up")
+				}
+				ps = append(ps, sends[x.s].frs[x.k])
+				tt = append(tt, fmt.Sprintf("(%d,%d)", x.s, x.k))
+			}
+			m, perr := c2.VerifC02Pack(idA, ps)
+			if perr != nil {
+				panic("pack: " + perr.Error())
+			}
+			arr = transport(m) // one buffer holds all of them, as read from a connection
+			schedTerms = append(schedTerms, "(IMulti "+vh.List(tt)+")")
+			si += cnt - 1
+		} else {
+			arr = sends[it.s].frs[it.k]
+			if x := hopBits(it.s, it.k); x != 0 {
+				arr.Flags |= com.Flag(x)
+				schedTerms = append(schedTerms, fmt.Sprintf("(IFragB %d %d %d)", it.s, it.k, x))
+			} else {
+				schedTerms = append(schedTerms, fmt.Sprintf("(IFrag %d %d)", it.s, it.k))
+			}
+		}
 		func() {
 			defer func() {
 				if x := recover(); x != nil {
 					pan = true
 				}
 			}()
-			err = rcv.Receive(sends[it.s].frs[it.k])
+			err = rcv.Receive(arr)
 		}()
 		evs, drops := rcv.Events(), rcv.DrainSend()
-		if len(evs) > 1 || len(drops) > 1 || (len(evs) > 0 && len(drops) > 0) || (err != nil && len(evs)+len(drops) > 0) {
-			anomalies = append(anomalies, fmt.Sprintf("arrival (%d,%d): %d events, %d answers, err=%v", it.s, it.k, len(evs), len(drops), err))
-		}
 		for _, e := range evs {
 			delivered = append(delivered, delivery{int(e.ID), int(e.Job), append([]byte(nil), e.Payload()...)})
+		}
+		if len(inner) > 1 {
+			// a container: receive() handles the packets one after the other; its reactions are attributed by
+			// content (a delivery to the last fragment of that send in the container, an SvDrop answer by group and position)
+			if err != nil || pan {
+				anomalies = append(anomalies, fmt.Sprintf("Multi container at %d: err=%v panic=%v", si, err, pan))
+			}
+			usedE, usedD := make([]bool, len(evs)), make([]bool, len(drops))
+			for xi, x := range inner {
+				last := true
+				for _, y := range inner[xi+1:] {
+					if y.s == x.s {
+						last = false
+					}
+				}
+				o := sends[x.s].obs[x.k]
+				done := false
+				for di, d := range drops {
+					if !usedD[di] && d.ID == c2.SvDrop && int64(d.Flags.Group()) == o.fgroup && int64(d.Flags.Position()) == o.fpos {
+						usedD[di], done = true, true
+						outs = append(outs, fmt.Sprintf("(OoDrop (%d,%d,%d,%d) %d)", d.Flags.Len(), d.Flags.Position(), d.Flags.Group(), uint16(d.Flags), devNum(d.Device)))
+						outsDesc = append(outsDesc, fmt.Sprintf("SvDrop answer for group %d position %d", d.Flags.Group(), d.Flags.Position()))
+						break
+					}
+				}
+				if !done && last {
+					for ei, e := range evs {
+						if !usedE[ei] && int(e.ID) == sends[x.s].spec.ID && int(e.Job) == sends[x.s].spec.Job {
+							usedE[ei], done = true, true
+							oo := observe(e)
+							outs = append(outs, "(OoDeliver "+oo.coq()+")")
+							outsDesc = append(outsDesc, map[string]interface{}{"deliver": oo.desc()})
+							break
+						}
+					}
+				}
+				if !done {
+					outs = append(outs, "OoNone")
+					outsDesc = append(outsDesc, "nothing")
+				}
+			}
+			for ei := range evs {
+				if !usedE[ei] {
+					anomalies = append(anomalies, "Multi container: a delivery that belongs to none of its packets")
+				}
+			}
+			for di := range drops {
+				if !usedD[di] {
+					anomalies = append(anomalies, "Multi container: an answer that belongs to none of its packets")
+				}
+			}
+			continue
+		}
+		if len(evs) > 1 || len(drops) > 1 || (len(evs) > 0 && len(drops) > 0) || (err != nil && len(evs)+len(drops) > 0) {
+			anomalies = append(anomalies, fmt.Sprintf("arrival (%d,%d): %d events, %d answers, err=%v", it.s, it.k, len(evs), len(drops), err))
 		}
 		switch {
 		case pan:
@@ -756,14 +855,11 @@ func runHistory(h HistSpec) {
 			st.group, sp.ID, sp.Job, dev, sp.Bits, sp.Tags, sp.Seed%251, sp.Len, vh.Z(ec), vh.List(ob)))
 		sendDesc = append(sendDesc, map[string]interface{}{"spec": sp, "write_error": fmt.Sprint(st.err), "queued": od})
 	}
-	var schedTerms []string
 	var schedDesc []interface{}
 	for _, it := range sched {
 		if it.s < 0 {
-			schedTerms = append(schedTerms, "ISweep")
 			schedDesc = append(schedDesc, "sweep")
 		} else {
-			schedTerms = append(schedTerms, fmt.Sprintf("(IFrag %d %d)", it.s, it.k))
 			schedDesc = append(schedDesc, []int{it.s, it.k})
 		}
 	}
@@ -1014,6 +1110,53 @@ func main() {
 			// server side (never sweeps), random order
 			h := HistSpec{Class: "group-ids", Dir: "c2s", Order: "perm0", Omit: -1, Sends: []SendSpec{fixed(2*F+1000, g), fixed(F+500, o)}}
 			hist(h)
+		}
+	}
+	// ---- hop flags: session()/channelWrite set FlagChannel / FlagChannelEnd on whatever packet goes out next,
+	// a proxy sets FlagProxy: the fragments of one group may differ in their low flag bits (Belongs must not care)
+	{
+		ch, che, px := int(com.FlagChannel), int(com.FlagChannelEnd), int(com.FlagProxy)
+		for vi, hop := range [][][3]int{
+			{{0, 1, ch}},                   // Channel starts after fragment 0 has gone
+			{{0, 1, ch}, {0, 2, ch}},       // ... and stays
+			{{0, 2, che}},                  // Channel ends with the last fragment
+			{{0, 0, ch}, {0, 1, ch | che}}, // Channel over fragment 0, ended on fragment 1
+			{{0, 1, px}, {0, 2, px}},       // the route changes to a proxy mid-group
+			{{0, 0, px}, {0, 1, px | ch}, {0, 3, che}},
+		} {
+			for _, d := range dirs {
+				h := plain("hop-flags", 3*F+1000, []string{"identity", "perm0", "rev-after-first"}[vi%3]) // 4 fragments
+				h.Dir, h.Hop = d, hop
+				h.Sends[0].Tags = 0
+				if vi%2 == 1 { // next to another group whose fragments keep their bits
+					h.Sends = append(h.Sends, mkSend(rng, F+500))
+				}
+				hist(h)
+			}
+		}
+	}
+	// ---- fragments that arrive inside ONE Multi container (one buffer, unpacked by receive()'s Multi branch),
+	// followed by single fragments: a packet unpacked from a container must not share storage with its neighbours
+	{
+		mh := func(sends []SendSpec, sched [][2]int, pack [][2]int, dir string) {
+			for i := range sends {
+				sends[i].Tags = 0
+			}
+			hist(HistSpec{Class: "multi-container", Dir: dir, Order: "identity", Omit: -1, Sends: sends, Sched: sched, Pack: pack})
+		}
+		for _, d := range dirs {
+			// Multi[A0, B0], A1, B1
+			mh([]SendSpec{mkSend(rng, F+100000), mkSend(rng, F+70000)}, [][2]int{{0, 0}, {1, 0}, {0, 1}, {1, 1}}, [][2]int{{0, 2}}, d)
+			// Multi[B0, A0], B1, A1 and the small last fragments packed too
+			mh([]SendSpec{mkSend(rng, F+3000), mkSend(rng, F+70000)}, [][2]int{{1, 0}, {0, 0}, {1, 1}, {0, 1}}, [][2]int{{0, 2}, {2, 2}}, d)
+			// three groups: Multi[A0, B0, C0], Multi[A1, B1], C1, C2
+			mh([]SendSpec{mkSend(rng, F+5000), mkSend(rng, F+9000), mkSend(rng, 2*F+100)},
+				[][2]int{{0, 0}, {1, 0}, {2, 0}, {0, 1}, {1, 1}, {2, 1}, {2, 2}}, [][2]int{{0, 3}, {3, 2}}, d)
+			// a whole group in one container, and a group whose first fragment came alone
+			mh([]SendSpec{mkSend(rng, F+2000), mkSend(rng, 2*F+2000)}, [][2]int{{1, 0}, {0, 0}, {0, 1}, {1, 2}, {1, 1}}, [][2]int{{1, 3}}, d)
+			// an unfragmented packet between two first fragments
+			mh([]SendSpec{mkSend(rng, F+40000), mkSend(rng, 900), mkSend(rng, F+60000)},
+				[][2]int{{0, 0}, {1, 0}, {2, 0}, {2, 1}, {0, 1}}, [][2]int{{0, 3}}, d)
 		}
 	}
 	// ---- the REAL listen loop of a client: [fragment; k failed passes; fragment; ...].  Failed passes
